@@ -3,7 +3,7 @@ from . import stackrun as S
 from . import monitors as M
 
 PLAN = [('misuse', 8, 3), ('limit', 6, 2), ('healthy', 8, 1)]
-MONITORS = [M.mon_init_barrier, M.mon_fanout, M.mon_shutdown]
+MONITORS = [M.mon_init_barrier, M.mon_fanout, M.mon_shutdown, M.mon_agent_final, M.mon_stale_id]
 THEOREMS = "C13_events, C13_bad_event_inert, C13_lifecycle_ext, C13_lifecycle_int, C13_reports_final, C13_identifier, C13_refusal_inert, C13_limit_and_closed, Tables.gen_ext_matches, Tables.gen_int_matches"
 CORPUS = ['C13']
 
